@@ -72,11 +72,21 @@ ObsOK(opsTab) ==
   HasView => ViewChk("C02", "view-equals-interpretation-of-applied-ops",
                      OpsOf(opsTab, S(E.obs.applied)), E.obs.view)
 
+(* C29: inside transaction_at(H) the first read shows exactly the state at H; after the commit
+   the document is the merge of the isolated change into the current state *)
+IsoOK(opsTab) ==
+  (Len(E.iso) > 0 /\ "calls" \in DOMAIN E /\ Len(E.calls) > 0 /\ "before" \in DOMAIN E.calls[1]) =>
+     /\ ViewChk("C29", "isolated-reads-show-the-state-at-the-isolation-heads",
+                OpsOf(ops, Anc(deps, S(E.iso[1]))), E.calls[1].before)
+     /\ (HasView => ViewChk("C29", "after-commit-document-is-merge-of-isolated-change",
+                             OpsOf(opsTab, S(E.obs.applied)), E.obs.view))
+
 Commit ==
   /\ IsEv("commit")
   /\ IF E.hash = "" THEN /\ ObsOK(ops) /\ UNCHANGED <<ops, deps>>
      ELSE /\ Define(E.def, ops, deps)
           /\ ObsOK(ops')
+          /\ IsoOK(ops')
   /\ UNCHANGED enc
 
 ChgDef ==
